@@ -173,10 +173,147 @@ Fixpoint check_chain (tv : trim_view) (s : st) (bs : list blk) : bool :=
       end
   end.
 
-(* a case = one chain from genesis on the real node; the trim view is the one the harness' targeted
-   probe observed on the current source (ParentDb on the unrepaired tree) *)
-Definition case := (N * trim_view * list blk)%type.
+(* ====================================================================================================
+   Account storage bookkeeping of one state object during one block
+     core/state/state_object.go: GetState / GetCommittedState / SetState / finalize / updateTrie
+     core/state/statedb.go     : CreateAccount / createObject (snapDestructs)
+   This is what decides the account's Size field (part of the account record, hence of the EVM root) and
+   the storage root.  The clause modelled: the result does not depend on whether the executing node reads
+   the parent state through a snapshot layer (s.db.snap != nil) or through the tries (s.db.snap == nil).
+   Slots and words are small integers; word 0 = common.Hash{} (SSTORE of 0 deletes the slot).
+   ==================================================================================================== *)
+Definition slot := N.
+Definition word := N.
+Definition smap := db.                         (* storage trie content: sorted, non-zero words only *)
+Definition amap := list (slot * word).         (* a Go map used for lookups only (originStorage): newest binding first *)
+Fixpoint aget (m : amap) (k : slot) : option word :=
+  match m with
+  | [] => None
+  | (k', v) :: t => if N.eqb k k' then Some v else aget t k
+  end.
+Definition wopt (o : option word) : word := match o with Some v => v | None => 0 end.
+
+(* state.New found a layer for the parent root (sdb.snap != nil) or not *)
+(* SnapFails: a layer exists but the read fails (snapshot.ErrNotCoveredYet while the generator is still
+   running after a restart): GetCommittedState falls back to the trie for the word *)
+Inductive source := NoSnap | SnapLayer | SnapFails.
+
+Record sobj := mkObj {
+  so_trie : smap;            (* s.getTrie(db): the object's storage trie *)
+  so_origin : amap;          (* s.originStorage *)
+  so_pending : smap;         (* s.dirtyStorage over s.pendingStorage: the latest word written per slot in this block *)
+  so_uniq : list slot;       (* s.uniqueNewKeysStorage *)
+  so_size : Z;               (* s.data.Size (big.Int) *)
+  so_destructed : bool }.    (* s.addrHash in s.db.snapDestructs (only read when a layer exists) *)
+
+(* state_object.go:GetState/GetCommittedState, in source order:
+     pending/dirty hit; originStorage hit; PROBE of the object's trie, a missing key is recorded in
+     uniqueNewKeysStorage; with a layer: destructed in this block => return the zero word (nothing cached),
+     else the word comes from the snapshot [snapv]; without a layer the word comes from the trie. *)
+Definition get_committed (src : source) (snapv : smap) (o : sobj) (k : slot) : word * sobj :=
+  match db_get (so_pending o) k with
+  | Some v => (v, o)
+  | None =>
+    match aget (so_origin o) k with
+    | Some v => (v, o)
+    | None =>
+      let probe := db_get (so_trie o) k in
+      let uq := match probe with None => k :: so_uniq o | Some _ => so_uniq o end in
+      match src with
+      | SnapLayer =>
+          if so_destructed o
+          then (0, mkObj (so_trie o) (so_origin o) (so_pending o) uq (so_size o) (so_destructed o))
+          else let v := wopt (db_get snapv k) in
+               (v, mkObj (so_trie o) ((k, v) :: so_origin o) (so_pending o) uq (so_size o) (so_destructed o))
+      | SnapFails =>
+          if so_destructed o
+          then (0, mkObj (so_trie o) (so_origin o) (so_pending o) uq (so_size o) (so_destructed o))
+          else let v := wopt probe in
+               (v, mkObj (so_trie o) ((k, v) :: so_origin o) (so_pending o) uq (so_size o) (so_destructed o))
+      | NoSnap =>
+          let v := wopt probe in
+          (v, mkObj (so_trie o) ((k, v) :: so_origin o) (so_pending o) uq (so_size o) (so_destructed o))
+      end
+    end
+  end.
+
+(* state_object.go:SetState: reads the previous word first, a write of the same word is dropped *)
+Definition set_state (src : source) (snapv : smap) (o : sobj) (k : slot) (v : word) : sobj :=
+  let '(prev, o1) := get_committed src snapv o k in
+  if N.eqb prev v then o1
+  else mkObj (so_trie o1) (so_origin o1) (db_put k v (so_pending o1)) (so_uniq o1) (so_size o1) (so_destructed o1).
+
+(* state_object.go:updateTrie, one pending slot (the Go map is iterated in arbitrary order; the slots are
+   distinct, every step touches only its own slot) *)
+Definition upd_step (uq : list slot) (acc : smap * amap * Z) (kv : slot * word) : smap * amap * Z :=
+  let '(tr, og, sz) := acc in
+  let '(k, v) := kv in
+  if N.eqb v (wopt (aget og k)) then acc
+  else if N.eqb v 0
+       then (db_del k tr, (k, v) :: og, if memN k uq then sz else (sz - 1)%Z)
+       else (db_put k v tr, (k, v) :: og, if memN k uq then (sz + 1)%Z else sz).
+Definition update_trie (o : sobj) : sobj :=
+  match so_pending o with
+  | [] => o                                             (* len(pendingStorage) == 0: nothing is reset *)
+  | _ =>
+    let '(tr, og, sz) := fold_left (upd_step (so_uniq o)) (so_pending o) (so_trie o, so_origin o, so_size o) in
+    mkObj tr og [] [] sz (so_destructed o)
+  end.
+
+(* statedb.go:CreateAccount over an existing object: a new object (empty root, empty caches); the address is in
+   snapDestructs from now on; Size is carried over iff the previous object was not deleted
+   (carry = false: it self-destructed in an earlier transaction of the block). *)
+Definition recreate (carry : bool) (o : sobj) : sobj :=
+  mkObj [] [] [] [] (if carry then so_size o else 0%Z) true.
+
+Inductive sop := SGet (k : slot) | SSet (k : slot) (v : word) | SCreate (carry : bool) | SRoot.
+
+Fixpoint run_sto (src : source) (snapv : smap) (o : sobj) (ops : list sop) : sobj * list word :=
+  match ops with
+  | [] => (o, [])
+  | SGet k :: t => let '(v, o1) := get_committed src snapv o k in
+                   let '(o2, rs) := run_sto src snapv o1 t in (o2, v :: rs)
+  | SSet k v :: t => run_sto src snapv (set_state src snapv o k v) t
+  | SCreate c :: t => run_sto src snapv (recreate c o) t
+  | SRoot :: t => run_sto src snapv (update_trie o) t
+  end.
+
+(* what a block commits to / what the EVM saw: storage content, Size, the words read *)
+Definition sobs := (smap * Z * list word)%type.
+Definition sto_obs (r : sobj * list word) : sobs := (so_trie (fst r), so_size (fst r), snd r).
+(* the object as loaded from the parent state: storage [p], Size [sz] *)
+Definition sto_init (p : smap) (sz : Z) : sobj := mkObj p [] [] [] sz false.
+Definition sto_block (src : source) (p : smap) (sz : Z) (ops : list sop) : sobs :=
+  sto_obs (run_sto src p (sto_init p sz) ops).
+
+Fixpoint wl_eqb (a b : list word) : bool :=
+  match a, b with
+  | [], [] => true
+  | x :: a', y :: b' => N.eqb x y && wl_eqb a' b'
+  | _, _ => false
+  end.
+Definition sobs_eqb (a b : sobs) : bool :=
+  let '(t1, z1, r1) := a in let '(t2, z2, r2) := b in db_eqb t1 t2 && Z.eqb z1 z2 && wl_eqb r1 r2.
+
+(* observed on the real core/state code: parent storage and Size, the operations, and what the StateDB
+   delivered without a snapshot tree and with a layer for the parent root (diff layer; generated disk layer) *)
+Record scase := mkSCase {
+  sc_parent : smap; sc_psize : Z; sc_ops : list sop;
+  sc_nosnap : sobs; sc_snap : list sobs }.
+Definition scase_ok (c : scase) : bool :=
+  sobs_eqb (sto_block NoSnap (sc_parent c) (sc_psize c) (sc_ops c)) (sc_nosnap c)
+  && forallb (sobs_eqb (sto_block SnapLayer (sc_parent c) (sc_psize c) (sc_ops c))) (sc_snap c).
+
+(* ---------- cases ---------- *)
+(* Chain = one chain from genesis on the real node; the trim view is the one the harness' targeted
+   probe observed on the current source (ParentDb on the unrepaired tree).
+   Storage = a batch of scenarios, each one block's worth of storage operations on one account of a real StateDB. *)
+Inductive case := Chain (id : N) (tv : trim_view) (bs : list blk) | Storage (id : N) (cs : list scase).
+Definition case_id (c : case) : N := match c with Chain id _ _ => id | Storage id _ => id end.
 Definition case_ok (c : case) : bool :=
-  let '(_, tv, bs) := c in check_chain tv genesis bs.
+  match c with
+  | Chain _ tv bs => check_chain tv genesis bs
+  | Storage _ scs => forallb scase_ok scs
+  end.
 Definition mismatches (cs : list case) : list N :=
-  map (fun c => fst (fst c)) (filter (fun c => negb (case_ok c)) cs).
+  map case_id (filter (fun c => negb (case_ok c)) cs).
